@@ -46,6 +46,7 @@ type shapeT struct {
 	Item       fty
 	Ext        int // array: 0 none, 1 present (single_form unset), 2 single_form set
 	ArrayRules bool
+	MapRules   bool
 }
 
 type propT struct {
@@ -116,7 +117,7 @@ func (p propT) Coq() string {
 		ext := map[int]string{0: "None", 1: "(Some false)", 2: "(Some true)"}[p.Shape.Ext]
 		sh = fmt.Sprintf("(Array (Some %s) %s %s)", p.Shape.Item.Coq(), ext, b(p.Shape.ArrayRules))
 	case "map":
-		sh = fmt.Sprintf("(Map (Some %s))", p.Shape.Item.Coq())
+		sh = fmt.Sprintf("(Map (Some %s) %s)", p.Shape.Item.Coq(), b(p.Shape.MapRules))
 	}
 	return fmt.Sprintf("(mkProp false %s %s %s)", sh, b(p.Required), b(p.Optional))
 }
@@ -342,6 +343,9 @@ func (p propT) Text() map[string]string {
 		}
 	}
 	body = append(body, t.body(prefix)...)
+	if p.Shape.Kind == "map" && p.Shape.MapRules {
+		body = append(body, "rules.minPairs = 1")
+	}
 	if p.Shape.Kind == "array" {
 		switch p.Shape.Ext {
 		case 1:
@@ -472,16 +476,18 @@ func isoMatrix(r *vh.Rand, full bool) []propT {
 					}
 				}
 			}
-			for _, req := range []bool{false, true} {
-				for _, opt := range []bool{false, true} {
-					out = append(out, propT{Shape: shapeT{Kind: "map", Item: t}, Required: req, Optional: opt, Surface: r.Intn(2)})
+			for _, mr := range []bool{false, true} {
+				for _, req := range []bool{false, true} {
+					for _, opt := range []bool{false, true} {
+						out = append(out, propT{Shape: shapeT{Kind: "map", Item: t, MapRules: mr}, Required: req, Optional: opt, Surface: r.Intn(2)})
+					}
 				}
 			}
 			continue
 		}
 		out = append(out, propT{Shape: shapeT{Kind: "array", Item: t}, Surface: r.Intn(2)})
 		out = append(out, propT{Shape: shapeT{Kind: "array", Item: t, Ext: 1 + r.Intn(2), ArrayRules: r.Bool()}, Required: r.Chance(30), Optional: r.Chance(20), Surface: r.Intn(2)})
-		out = append(out, propT{Shape: shapeT{Kind: "map", Item: t}, Required: r.Chance(30), Optional: r.Chance(20), Surface: r.Intn(2)})
+		out = append(out, propT{Shape: shapeT{Kind: "map", Item: t, MapRules: r.Chance(40)}, Required: r.Chance(30), Optional: r.Chance(20), Surface: r.Intn(2)})
 	}
 	return out
 }
